@@ -58,7 +58,7 @@ def gen_qops(rng, c, nops):
 
 def encode(c, eff, cap, ops, cfg=9, family="q"):
     head = c.encode([], cfg=cfg, family=family).split(" ")[:-1]  # drop nOps=0
-    toks = head + [cap]
+    toks = head + ["U" if cap >= UNBOUNDED else cap]          # U: the unbounded model (Queue/Unbounded.lean)
     el = []
     for (i, k), lst in sorted(eff.items()):
         for ek, a in lst:
@@ -128,12 +128,15 @@ class Twin:
                 self.hsm.clear_trace()
 
 
+UNBOUNDED = 10 ** 6
+
+
 def run_real(c, eff, cap, ops, spied=True, instrumented=True, want_spy=False, twin_seed=None):
     base = charts.probed_class(mhsm.HsmWithQueues)
     twin = Twin(twin_seed, instrumented=instrumented) if twin_seed is not None else None
 
     class Q(base):
-        QUEUE_SIZE = cap
+        QUEUE_SIZE = None if cap >= UNBOUNDED else cap          # a subclass may ask for queues without a bound
 
         def dispatch(self, e):
             self._vp_disp.append(e)
@@ -275,7 +278,7 @@ def explore(run, focus, n_random):
     for f in sorted(glob.glob(os.path.join(os.path.dirname(os.path.dirname(os.path.abspath(__file__))), "corpus", focus, "*.json"))):
         cases.append(from_json(json.load(open(f))))
         run.count("corpus")
-    caps = (2, 3, 4, 5, 500) if focus != "C16" else (1, 2, 3, 4, 500)
+    caps = (2, 3, 4, 5, 500, UNBOUNDED) if focus != "C16" else (1, 2, 3, 4, 500, UNBOUNDED)
     for _ in range(n_random):
         cases.append(gen_case(rng, caps=caps))
     outs = leanrun.run_driver([encode(*k) for k in cases])
@@ -518,6 +521,88 @@ def explore_failed_step(run, focus, n):
         run.case(cj, nontrivial=True)
 
 
+def explore_eager_recall(run, n):
+    """C15 on a queued chart that runs as soon as something is posted (a subclass whose post_fifo / post_lifo step the chart until
+    its queue is empty - the usual way to drive a queued chart without a thread) and whose handler recalls the next deferred event
+    whenever it is handed one: a recall made from inside the step that an outer recall's post started. Every deferred event is
+    dispatched exactly once, in deferral order; every recall returns the event it released (oracle only)"""
+    rng = run.rng
+    for _ in range(n):
+        k = rng.randint(1, 6)
+        chain = rng.random() < 0.8          # the handler recalls the next one when handed a released event
+        instrumented = rng.random() < 0.5
+        dispatched, returned = [], []
+
+        class Eager(mhsm.HsmWithQueues):
+            _running = False
+
+            def _drain(self):
+                if self._running:
+                    return
+                self._running = True
+                try:
+                    while self.next_rtc():
+                        pass
+                finally:
+                    self._running = False
+
+            def post_fifo(self, e):
+                super().post_fifo(e)
+                self._drain()
+
+            def post_lifo(self, e):
+                super().post_lifo(e)
+                self._drain()
+
+        def st(chart, e):
+            if e.signal_name == "DEFERRED_WORK":
+                dispatched.append(e.payload)
+                if chain:
+                    r = chart.recall()
+                    returned.append(None if r is None else r.payload)
+                return return_status.HANDLED
+            if e.signal_name == "OTHER":
+                dispatched.append("other")
+                return return_status.HANDLED
+            if e.signal in (signals.ENTRY_SIGNAL, signals.INIT_SIGNAL, signals.EXIT_SIGNAL):
+                return return_status.HANDLED
+            chart.temp.fun = chart.top
+            return return_status.SUPER
+        st.__name__ = "only"
+        hsm = Eager(instrumented=instrumented) if not instrumented else Eager()
+        hsm.start_at(mhsm.spy_on(st) if instrumented else st)
+        script = []
+        for i in range(k):
+            hsm.defer(Event(signal="DEFERRED_WORK", payload=i))
+            script.append(("defer", i))
+            if rng.random() < 0.3:
+                hsm.post_fifo(Event(signal="OTHER"))
+                script.append(("post",))
+        err = None
+        n_outer = 0
+        try:
+            for _j in range(k + 1):
+                r = hsm.recall()
+                n_outer += 1
+                returned.append(None if r is None else r.payload)
+                script.append(("recall",))
+                if r is None:
+                    break
+        except Exception as ex:  # noqa
+            err = "%s: %s" % (type(ex).__name__, ex)
+        cj = {"what": "eager-recall", "deferred": k, "chain": chain, "instrumented": instrumented, "script": script}
+        run.count("recall from inside the step an outer recall started" if chain else "recall on a chart that runs at every post")
+        run.traces_validated += 1
+        got = [d for d in dispatched if d != "other"]
+        rets = [x for x in returned if x is not None]
+        if err:
+            run.violate("C15/recall-error", "%d deferred events, recalls from outside%s: %s" % (k, " and from the handler" if chain else "", err), cj)
+        elif got != list(range(k)) or sorted(rets) != list(range(k)) or len(hsm.defer_queue) != 0:
+            run.violate("C15/recall-order", "%d events deferred in order 0..%d; dispatched %s, recalls returned %s, still deferred %d" % (
+                k, k - 1, got, returned, len(hsm.defer_queue)), cj)
+        run.case(cj, nontrivial=chain and k >= 2)
+
+
 def explore_nested_circuit(run, focus, n):
     """handlers that call complete_circuit() on their own chart (besides posting): the nested call, too, returns only when the
     queue is empty, and the dispatch order is that of a double-ended queue driven by the same operations (oracle only; a
@@ -687,7 +772,7 @@ def upto(cj, idx):
 
 def replay(case):
     cc = case.get("case", case)
-    if cc.get("what") in ("failed-step", "nested-circuit"):
+    if cc.get("what") in ("failed-step", "nested-circuit", "eager-recall"):
         print(cc.get("what"), "case:", cc)
         return 0
     if cc.get("what") == "same-objects":
